@@ -1,6 +1,7 @@
 package checks
 
 import (
+	"strings"
 	"fmt"
 	"math/rand"
 
@@ -310,11 +311,35 @@ func init() {
 			if err != nil {
 				return nil, err
 			}
+			// every PAIR of operations in one list (and the mask operations three times), argument indices
+			// symbolic: "several conditions may constrain the same argument" for all 64 combinations
+			tab, err := c.ArchTable(archVars["x86_64"])
+			if err != nil {
+				return nil, err
+			}
+			ns := sortedNamesByNumber(tab)
+			allOps := []string{"Equal", "NotEqual", "GreaterThan", "LessThan", "GreaterOrEqual", "LessOrEqual", "BitsSet", "BitsNotSet"}
+			lists := [][]string{{"BitsSet", "BitsSet", "BitsSet"}, {"BitsNotSet", "BitsNotSet", "BitsNotSet"}, {"BitsSet", "Equal", "BitsSet"}}
+			for _, o1 := range allOps {
+				for _, o2 := range allOps {
+					lists = append(lists, []string{o1, o2})
+				}
+			}
+			for _, l := range lists {
+				g := LargeGroup{Names: []string{ns[3]}, Entries: []LargeEntry{{Name: ns[1], Conds: l}}}
+				g2 := LargeGroup{Names: []string{ns[1], ns[5]}}
+				p := LargeParams("x86_64", 0, []LargeGroup{g, g2})
+				for ci := range l {
+					p[fmt.Sprintf("g0.e0.c%d.arg", ci)] = -1
+				}
+				p["props"] = "C03"
+				lj = append(lj, run.Job{ID: fmt.Sprintf("oplist/x86_64/%s", strings.Join(l, "+")), Pkg: run.Module, Harness: "H_Policy", Params: p})
+			}
 			return append(jobs, lj...), nil
 		},
 		CoverEvery: []string{"assembled"},
 		NeedCovers: []string{"cover.group0", "cover.group1", "cover.default"},
-		Bounds:     map[string]interface{}{"small": "all structures with conditions: <=3 groups, <=2 unconditional names and <=2 conditional entries per group (same name twice = merged OR-lists), <=2 conditions per list, operations {Equal, GreaterThan} (+BitsNotSet to weight 8 in thorough; thorough also repeats weight <=7 with {NotEqual,LessThan}, {GreaterOrEqual,LessOrEqual}, {BitsSet,BitsNotSet}, so all eight operations occur); weight <=7 quick, <=9 thorough", "large": "quick: 64x1 and 22x3 lists x conditions; thorough: also 70x1, 11x6, 130x1 and 300 conditional syscalls; each first/middle/last among other entries and followed by a second group", "values": "all events, operands, argument indices (small shapes), actions"},
+		Bounds:     map[string]interface{}{"small": "all structures with conditions: <=3 groups, <=2 unconditional names and <=2 conditional entries per group (same name twice = merged OR-lists), <=2 conditions per list, operations {Equal, GreaterThan} (+BitsNotSet to weight 8 in thorough; thorough also repeats weight <=7 with {NotEqual,LessThan}, {GreaterOrEqual,LessOrEqual}, {BitsSet,BitsNotSet}, so all eight operations occur); weight <=7 quick, <=9 thorough", "large": "quick: 64x1 and 22x3 lists x conditions; thorough: also 70x1, 11x6, 130x1 and 300 conditional syscalls; each first/middle/last among other entries and followed by a second group", "oplists": "all 64 ordered pairs of operations in one list, and three lists of three with repeated mask operations, argument indices symbolic (the conditions may constrain the same argument)", "values": "all events, operands, argument indices (small shapes), actions"},
 		Outside:    policyOutside, Assumptions: policyAssumptions, Trusted: policyTrusted,
 	})
 	register(&Spec{
